@@ -10,6 +10,8 @@
                              compatible with it, the label is the model's defect class (e.g. "crash@realTime_NoteOn
                              channel=16", "alloc@setNumChips -1", "overflow@dmx-volume cc7=255"); otherwise it is
                              generic: "<kind>@<library call site> <innermost library function>" (a defect the model does not contain).
+                             A memory report while young drum notes that the last re-creation of the chips had to drop would
+                             sit beyond the chip channels (StaleSurvivor) is labelled "uaf@reset keeps a young drum note ...".
      hang@<call>             killed by the CPU-time limit Tmo(S, ev) = 2 s + cost allowance computed by the model
      retval@<call> <class>   a call documented to fail returned something else than its documented error value
      overflow@buffer <call>  a fence of an exactly sized argument buffer was overwritten (non-ASan builds)
@@ -45,6 +47,7 @@ AddDrift(ds, ev) == IF ds = {} \/ Len(drift) >= MaxDrift THEN drift
 Compatible(kind, cls) ==
   CASE kind = "crash"    -> cls \in {"overflow", "segv", "uaf", "asan", "ub"}
     [] kind = "overflow" -> cls \in {"overflow", "segv", "ub"}
+    [] kind = "uaf"      -> cls \in {"uaf", "overflow", "segv"}
     [] kind = "abort"    -> cls \in {"abort"}
     [] kind = "alloc"    -> cls \in {"alloc", "throw", "abort", "segv", "killed"}
     [] OTHER -> FALSE
@@ -57,6 +60,7 @@ CrashLabel(St, ev) ==
       at == IF Has(ev, "atclose") THEN " (in the final opn2_close)" ELSE ""
   IN IF cr.cls = "hang" THEN "hang@" \o ev.e \o at
      ELSE IF js # {} /\ ~Has(ev, "atclose") THEN hz[CHOOSE j \in js : \A i \in js : j <= i].w
+     ELSE IF StaleSurvivor(St) /\ Compatible("uaf", cr.cls) THEN SurvivorLabel \o at
      ELSE GenKind(cr.cls) \o "@" \o (IF cr.fn # "" THEN cr.fn \o " " \o cr.topfn ELSE ev.e \o " ?") \o at
 CrashDetail(ev) == ToString([cls |-> ev.crash.cls, sig |-> ev.crash.sig, what |-> ev.crash.what, site |-> ev.crash.fn, file |-> ev.crash.file,
                              line |-> ev.crash.line, top |-> ev.crash.top, args |-> Args(ev)])
